@@ -76,6 +76,9 @@ public:
    */
   size_t getSize();
 
+  /** Saves the hash to a file (expanded back to one entry per cell) */
+  void save(std::ostream &fp);
+
   /** Loads a hash from a file*/
   static HashBBdh *load(std::istream &fp);
 
@@ -83,5 +86,6 @@ public:
 
 protected:
   BitSequence *offsets;
+  uint hashbits; // width of the entries of the plain table (kept for save)
 };
 #endif
